@@ -89,6 +89,15 @@ Proof.
   rewrite orb_true_iff, IH, Z.eqb_eq. split; intros [H|H]; auto.
 Qed.
 
+Lemma register_prefix : forall fs held, exists extra, register held fs = held ++ extra.
+Proof.
+  induction fs as [|f t IH]; intros held; cbn [register].
+  - exists []. rewrite app_nil_r. reflexivity.
+  - destruct (zmem f held).
+    + apply IH.
+    + destruct (IH (held ++ [f])) as [e E]. exists ([f] ++ e). rewrite E, <- app_assoc. reflexivity.
+Qed.
+
 Lemma register_noop : forall fs held, (forall f, In f fs -> In f held) -> register held fs = held.
 Proof.
   induction fs as [|f t IH]; intros held H; cbn [register]; [reflexivity|].
